@@ -10,8 +10,16 @@
 
 namespace rt {
 
-const int MAXT = 17;            // 16 simulated threads + the main thread (tid 16)
-const int MAIN_TID = 16;
+// 16 simulated threads + the main thread by default; the "crowd" build (-DSIM_MAXT=321) runs up to 320 threads with a
+// smaller shadow table (thread-count limits of home-made locks: 8-bit ticket counters and the like)
+#ifndef SIM_MAXT
+#define SIM_MAXT 17
+#endif
+#ifndef SIM_NCELL_LOG
+#define SIM_NCELL_LOG 20
+#endif
+const int MAXT = SIM_MAXT;
+const int MAIN_TID = SIM_MAXT - 1;
 
 struct Race {
     std::string kind;           // write-write | read-write | write-read
@@ -39,7 +47,7 @@ struct Result {
     std::vector<Race> races;
     bool deadlock = false, budget_exceeded = false, shadow_overflow = false;
     uint64_t write_shared_locations = 0;   // bytes written by one thread and touched by another
-    uint64_t sync_ops = 0, atomic_ops = 0, pseudo_writes = 0;
+    uint64_t sync_ops = 0, atomic_ops = 0, pseudo_writes = 0, spin_yields = 0;
     std::string abort_what;
 };
 
